@@ -352,10 +352,22 @@ func c07Exec(plan *Plan, st *Stats) *Violation {
 				}
 				before, storeBefore := canonSnap(T.h.dr.Snapshot()), T.h.StoreCanon()
 				bogus := &ysgo.Snapshot{CurrentNode: "no_such_node_", Variables: yarnValues(map[string]Val{"zz": numV(99)}), VisitedNodes: map[string]int{"zz": 7}}
+				hollow := ei%2 == 1 && snaps[e.K] != nil
+				if hollow {
+					// a snapshot of a known node with a hollow value in it: a runner may accept or refuse it,
+					// but a refusal must leave everything as it was
+					bogus = &ysgo.Snapshot{CurrentNode: snaps[e.K].CurrentNode, Variables: map[string]variable.Value{"zz": *variable.NewNumber(99), "hollow": {}}, VisitedNodes: map[string]int{"zz": 7}}
+				}
 				err, pv := safeRestore(T, bogus)
+				if hollow && (pv != nil || err == nil) {
+					continue
+				}
 				if pv != nil || err == nil {
 					viol = &Violation{Clause: "C07.I5", OpIndex: ei, Observed: fmt.Sprint(pv), Note: "restoring a snapshot that names an unknown node did not fail"}
 					return
+				}
+				if hollow && st != nil {
+					st.probe("restore_of_a_hollow_snapshot_refused")
 				}
 				if after := canonSnap(T.h.dr.Snapshot()); !after.equal(before) {
 					viol = &Violation{Clause: "C07.I5", OpIndex: ei, Expected: before.String(), Observed: after.String(), Note: "a failed restore changed the runner"}
